@@ -29,10 +29,14 @@ RULE = (
     "canonical state (status, configuration, context, actors, registry, pending timer/thread census, loop-task "
     "liveness, restored flag); every (state, op) step is judged: allowed status edge, start idempotent / refused after "
     "stop, send inert when done/error/stopped, stop harmless in every status and leaving nothing alive, nothing "
-    "delivered after stop even when virtual time passes; distinct_nontrivial = distinct canonical states"
+    "delivered after stop even when virtual time passes. Sync threads (E3p): stop() on one virtual thread against an after-timer "
+    "thread, a caller thread and a second stop(), every interleaving at line granularity inside stop / send / _process_event_queue / "
+    "the timer thread body with at most the stated preemptions; oracle: no thread raises, status stopped, nothing runs in a send() "
+    "that started after stop() returned, no thread left alive, queue empty; distinct_nontrivial = distinct canonical states + distinct schedules"
 )
-BOUNDS = {"quick": "depth 5, both engines", "thorough": "depth 7, both engines"}
+BOUNDS = {"quick": "depth 5, both engines; sync threads: stop() vs after-timer / caller threads, every line-level interleaving with <=1-2 preemptions", "thorough": "depth 7, both engines; sync threads: <=2-3 preemptions"}
 ASSUMPTIONS = [
+    "thread slice: an action carried by a send() call that started BEFORE stop() returned is concurrent with stop() and may complete (C04 requires accepted events to be processed); only a send() that starts after stop() returned must deliver nothing",
     "send() on an uninitialized interpreter is not judged (the statement names done, failed and stopped)",
     "TICK advances virtual time by 1 s with the default schedule (timers in deadline order); other orders are C08/C09's subject",
 ]
@@ -333,6 +337,8 @@ def units(tier: str) -> List[Any]:
     depth = 5 if tier == "quick" else 7
     core.install_logging()
     us: List[Any] = []
+    for variant, (bq, bt) in PREEMPT.items():
+        us.append(("preempt", variant, bq if tier == "quick" else bt))
     for engine in ENGINES:
         res = dict(states=0, transitions=0, executions=0, distinct=[], violations=[], samples=[], caps=[])
         seen: set = set()
@@ -349,9 +355,35 @@ def units(tier: str) -> List[Any]:
     return us
 
 
+PREEMPT = {"stop-vs-timer": (2, 3), "stop-vs-caller": (2, 3), "stop-vs-caller+timer": (1, 2), "stop-stop-vs-timer": (1, 2)}
+
+
 def run_unit(unit):
     if unit[0] == "pre":
         return unit[2]
+    if unit[0] == "preempt":
+        from . import c14_preempt as P
+        import re as _re
+
+        _, variant, bound = unit
+        res = dict(states=0, transitions=0, executions=0, distinct=[], violations=[], samples=[], caps=[])
+        results, n, capped = P.explore(variant, bound)
+        res["executions"] += n
+        if capped:
+            res["caps"].append("max_execs per preemptive variant")
+        outcomes = set()
+        for taken, out in results:
+            outcomes.add(out["key"])
+            res["distinct"].append(hash(("preempt", variant, tuple(out["schedule"]))))
+            for clause, detail in out["bad"]:
+                res["violations"].append(dict(
+                    signature=f"C14|{clause}|sync-threads", clause=clause,
+                    what=f"sync engine, threads {sorted(P.VARIANTS[variant]['producers'])}{' + after-timer' if P.VARIANTS[variant]['timer'] else ''}: {clause}: {detail}; "
+                         f"{out['preemptions']} preemption(s), schedule {[_re.sub(r'::[0-9a-f-]+', '', x) for x in out['schedule']]}",
+                    size=out["preemptions"] * 1000 + len(taken),
+                    replay=dict(engine="preempt", variant=variant, bound=bound, schedule=taken)))
+        res["samples"].append(dict(engine="sync-threads", variant=variant, preemption_bound=bound, schedules=n, distinct_outcomes=len(outcomes)))
+        return res
     _, engine, root, depth = unit
     res = dict(states=0, transitions=0, executions=0, distinct=[], violations=[], samples=[], caps=[])
     seen: set = set()
@@ -366,6 +398,15 @@ def run_unit(unit):
 
 
 def replay(payload):
+    if payload.get("engine") == "preempt":
+        from . import c14_preempt as P
+        from ..e2 import Choices
+
+        out = P.run(payload["variant"], Choices(payload["schedule"]), payload["bound"])
+        print("  log order:", out["order"])
+        for c, d in out["bad"]:
+            print("  ", c, d)
+        return [dict(signature=f"C14|{c}|sync-threads", what=d) for c, d in out["bad"]]
     life = run_seq(payload["engine"], payload["seq"])
     try:
         out = [dict(signature=f"C14|{c}", what=d) for c, d in life.problems]
